@@ -40,6 +40,7 @@ class MemReader:
     def __init__(self):
         self.buf = bytearray()
         self.eof = False
+        self.exc = None
         self.waiter = None
         self.logger = _Log()
 
@@ -48,6 +49,8 @@ class MemReader:
 
     async def readexactly(self, n):
         while len(self.buf) < n:
+            if self.exc is not None:
+                raise self.exc
             if self.eof:
                 raise asyncio.IncompleteReadError(bytes(self.buf), n)
             self.waiter = asyncio.get_event_loop().create_future()
@@ -70,6 +73,25 @@ class MemReader:
     def feed_eof(self):
         self.eof = True
         self._wake()
+
+    def feed_exc(self, exc):
+        """the stream fails: what asyncssh's SSHReader raises when the connection is lost abruptly"""
+        self.exc = exc
+        self._wake()
+
+
+ABORT_KINDS = ('connlost', 'disconnect', 'reset', 'brokenpipe')
+
+
+def abort_exc(kind):
+    import asyncssh
+    if kind == 'connlost':
+        return asyncssh.ConnectionLost('Connection lost')
+    if kind == 'disconnect':
+        return asyncssh.ProtocolError('scripted disconnect')
+    if kind == 'reset':
+        return ConnectionResetError(104, 'Connection reset by peer')
+    return BrokenPipeError(32, 'Broken pipe')
 
 
 class MemWriter:
@@ -286,7 +308,7 @@ def gen_events(rng, nmax=14, batch=False):
     evs = []
     for _ in range(rng.randint(2, nmax)):
         r = rng.random()
-        evs.append('S' if r < 0.42 else 'R' if r < 0.86 else 'X' if r < 0.93 else 'B' if r < 0.96 else 'E')
+        evs.append('S' if r < 0.42 else 'R' if r < 0.86 else 'X' if r < 0.92 else 'B' if r < 0.945 else 'A' if r < 0.975 else 'E')
     if rng.random() < 0.5:
         evs.append('S')
     return evs
@@ -303,6 +325,8 @@ def events_to_coq(evs):
             out.append('CBadFrame')
         elif e[0] == 'X':
             out.append('(CCancel %d)' % e[1])
+        elif e[0] == 'A':
+            out.append('CAbort')
         else:
             out.append('CEof')
     return '[' + ';'.join(out) + ']'
@@ -428,6 +452,8 @@ def oracle_session(v, info):
         if ex[0] == 'fail':
             if exc is None:
                 bad.append(f'caller {i} got a value ({_short(t)}) although the session failed before any reply to it')
+            elif not isinstance(exc, (asyncssh.SFTPError, asyncssh.Error, OSError)):
+                bad.append(f'caller {i} of a failed session got {type(exc).__name__}, not an SFTP / connection error')
             continue
         _, rtype, payload = ex
         if rtype not in (101, want):
@@ -558,6 +584,11 @@ async def mem_session(rng, v, start, plan, fixed=None):
             reader.feed(frame(short))
             await settle()
             events.append(('B', short))
+        elif ev[0] == 'A':
+            kind = ev[1] if fixed is not None else rng.choice(ABORT_KINDS)
+            reader.feed_exc(abort_exc(kind))
+            await settle()
+            events.append(('A', kind))
         else:
             reader.feed_eof()
             await settle()
@@ -688,3 +719,77 @@ async def e2e_session(rng, conn, fake, v, plan):
     except Exception:
         pass
     return case, info
+
+
+# ---------------------------------------------------------------------------------------------
+# session ends through real connections over MemWire (public API on both sides)
+
+WIRE_END_KINDS = ('fin', 'reset', 'stream_end_c', 'chan_close', 'chan_eof_exit', 'srv_disconnect', 'srv_abort',
+                  'cli_abort')
+
+
+async def wire_end_session(rng, v, n_out, n_answered, end_kind):
+    """A real client (conn.start_sftp_client) and the raw fake SFTP subsystem on a real asyncssh server,
+    linked by MemWire.  n_out requests are issued, n_answered of them answered (FX_OK), then the session /
+    connection ends in the given way.  Completion is awaited by running the loop (bounded rounds)."""
+    import asyncssh
+    from . import memwire
+    fake = FakeSubsystem()
+    tun, wire, acc, conn = await memwire.connected_pair(server_factory=fake.server_factory(), srv_kw={'encoding': None})
+    tasks, kinds, wire_ids, events = [], [], [], []
+    try:
+        sftp = await conn.start_sftp_client(sftp_version=v)
+        sess = fake.sessions[-1]
+        chan = sess['chan']
+        for serial in range(n_out):
+            kind, _rt = rng.choice([(13, None), (15, None)])
+            t = asyncio.ensure_future(public_call_for(sftp, kind, serial))
+            fr = await asyncio.wait_for(sess['frames'].get(), 60)
+            key, rid, arg = request_info(fr)
+            tasks.append(t)
+            kinds.append(kind)
+            wire_ids.append(rid)
+            events.append(('S', kind))
+        order = list(range(n_out))
+        rng.shuffle(order)
+        for serial in order[:n_answered]:
+            payload = u32(0) + sstr(b'') + sstr(b'')
+            chan.write(frame(bytes([101]) + u32(wire_ids[serial]) + payload))
+            events.append(('R', 101, wire_ids[serial], payload))
+        await memwire.settle(40)
+        sconn = chan.get_connection()
+        if end_kind == 'fin':
+            wire.cut_link(None)
+        elif end_kind == 'reset':
+            wire.cut_link(ConnectionResetError(104, 'Connection reset by peer'))
+        elif end_kind == 'stream_end_c':
+            wire.stream_end('c')
+        elif end_kind == 'chan_close':
+            chan.close()
+        elif end_kind == 'chan_eof_exit':
+            chan.write_eof()
+            chan.exit(0)
+        elif end_kind == 'srv_disconnect':
+            sconn.disconnect(asyncssh.DISC_PROTOCOL_ERROR, 'scripted')
+        elif end_kind == 'srv_abort':
+            sconn.abort()
+        elif end_kind == 'cli_abort':
+            conn.abort()
+        events.append(('A', end_kind))
+        for _ in range(60):
+            if all(t.done() for t in tasks):
+                break
+            await memwire.settle(25)
+        info = {'tasks': [Snap(t) for t in tasks], 'kinds': kinds, 'wire_ids': wire_ids, 'events': events,
+                'open': False, 'violations': [], 'start': 0}
+        return info
+    finally:
+        for t in tasks:
+            if not t.done():
+                t.cancel()
+        try:
+            conn.abort()
+        except Exception:
+            pass
+        acc.close()
+        await memwire.settle(10)
